@@ -141,6 +141,11 @@ def nesting(ctx, body, limit=4):
         O = X.Origins(b, P)
         for cs in b.calls():
             selfty = ((cs.fn or {}).get("impl_self_ty") or "").split("<")[0].split("::")[-1]
+            if cs.name in ("write_bit_field_entry", "read_bit_field_entry") and selfty in ("UperWriter", "UperReader"):
+                # the entry of the component in the enclosing SEQUENCE's presence bookkeeping: made before the scope is stashed /
+                # pushed (inside `scope_stashed` the enclosing scope is gone and the call does nothing)
+                out.setdefault(("nest:bit_field_entry@" + (">".join(prefix) or "top"), ()), []).append(cs)
+                continue
             if cs.name not in NEST or selfty not in ("UperWriter", "UperReader"):
                 continue
             chain = prefix + (cs.name,)
@@ -243,8 +248,9 @@ def fmt(d):
     return "%s(%s)" % (d[0], ", ".join("%s=%s" % kv for kv in d[1]))
 
 
-def r2(ctx, rule="C01.R2", kinds=None):
+def r2(ctx, rule="C01.R2", kinds=None, only_prefix=None):
     ctx.rule(rule, ("(C01.R2 restricted to the kinds %s) " % ", ".join(kinds) if kinds else "") +
+             ("(C01.R2 restricted to the place of the bit-field entry relative to the framing combinators) " if only_prefix else "") +
              "T2 UPER codec-skeleton symmetry: for every kind, UperWriter::write_K and UperReader::read_K (closures included, "
                    "same-type helpers inlined to depth 1) perform the same set of codec / framing calls with the same "
                    "constraint-argument descriptors, and nest the framing combinators with_buffer / scope_stashed / scope_pushed in "
@@ -269,6 +275,8 @@ def r2(ctx, rule="C01.R2", kinds=None):
         asym_b = ASYMMETRY_B.get(name, {}) if ctx.default_config == "B" else {}
         for d in sorted(kw ^ kr):
             side = "writer" if d in kw else "reader"
+            if only_prefix and not d[0].startswith(only_prefix):
+                continue
             if fmt(d) in asym.get(side, ()):
                 detail["declared_asymmetry"] = asym["reason"]
                 continue
@@ -718,3 +726,6 @@ def run(ctx):
     scope_symmetry(ctx, rule="C01.R7")
     from .c03 import r10 as root_components_counted
     root_components_counted(ctx, rule="C01.R8")
+    # the length of an unconstrained INTEGER is a function of the value, not of its magnitude - per branch (shared with C02)
+    from .c02 import r3 as minimal_twos_complement
+    minimal_twos_complement(ctx, rule="C01.R9")
